@@ -778,6 +778,238 @@ def rule_freeze_consistency(rep, repo, tier):
     rep.ok("R9")
 
 
+def rule_freeze_main(rep, repo):
+  """R10: clone_model_and_freeze_auto_po2_scale as a whole, interpreted on a
+  synthetic model (Keras model construction and the export replaced by
+  recording stand-ins).  The original model must stay untouched (the export
+  runs on a clone that received the original weights); every layer of the
+  new model is built, in order, from the exported clone's layer: QConv2D /
+  QDepthwiseConv2D / QBatchNormalization / QDense with the frozen copy of
+  THAT layer's auto_po2 quantizer (post_training_scale = the scale that
+  quantizer recorded) under the right key, other layers from their own
+  config; the new model receives the original float weights; with
+  quantize_model_weights the new model is exported and compared; a new model
+  that still carries an adaptive auto_po2 quantizer is refused."""
+  um = repo.module(UM)
+  fn = um.functions.get("clone_model_and_freeze_auto_po2_scale")
+  if fn is None:
+    raise AnalysisError("anchor-missing clone_model_and_freeze_auto_po2_"
+                        "scale")
+  unit = "%s::clone_model_and_freeze_auto_po2_scale" % um.relpath
+  rep.unit(unit)
+  loc = um.loc(fn)
+  KEY = {"QConv2D": "kernel_quantizer", "QDense": "kernel_quantizer",
+         "QDepthwiseConv2D": "depthwise_quantizer",
+         "QBatchNormalization": "inverse_quantizer"}
+
+  def scenario(flag, extra_auto_other=False, hw_differs=False):
+    ev = []            # event log
+    made = []          # layers of the new model in creation order
+
+    def quant(tag, alpha):
+      return Mock("q_" + tag, {
+          "alpha": alpha, "post_training_scale": None,
+          "scale": Mock("scale", {"numpy": lambda pe, a, k: "SCALE-" + tag}),
+          "get_config": lambda pe, a, k: {"bits": 4, "alpha": alpha,
+                                          "tag": tag}})
+
+    def lay(name, cls, qs, keys):
+      cfg = {"name": name}
+      for kk in keys:
+        cfg[kk] = {"class_name": "quantized_bits", "config": {"old": name}}
+      a = {"name": name, "__class__": Mock("class", {
+          "__name__": cls,
+          "from_config": lambda pe, ar, k, name=name, qs=qs: new_layer(
+              "other", name, {"from_config": ar[0]},
+              list(qs) if qs is not None else None)}),
+           "get_config": lambda pe, ar, k: {
+               kk: (dict(v, config=dict(v["config"])) if isinstance(v, dict)
+                    else v) for kk, v in cfg.items()}}
+      if qs is not None:
+        a["quantizers"] = list(qs)
+      return Mock(name, a)
+
+    def new_layer(kind, name, kw, quantizers):
+      m = Mock("new " + str(name), {"name": name, "__kind__": kind,
+                                    "__kw__": kw})
+      if quantizers is not None:
+        m.attrs["quantizers"] = quantizers
+      m.attrs["__call__"] = lambda pe, a, k, m=m: (
+          ev.append(("apply", m.attrs["name"], a[0])),
+          "x-after-" + str(m.attrs["name"]))[1]
+      made.append(m)
+      return m
+
+    qa = {n: quant(n, "auto_po2") for n in ("conv", "dw", "bn", "dense",
+                                             "odd")}
+    qf = quant("fixed", 1.0)
+    specs = [("conv", "QConv2D", [qa["conv"], qf],
+              ["kernel_quantizer", "bias_quantizer"]),
+             ("dw", "QDepthwiseConv2D", [qa["dw"], None],
+              ["depthwise_quantizer", "bias_quantizer"]),
+             ("bn", "QBatchNormalization", [None, None, None, None,
+                                            qa["bn"]],
+              ["inverse_quantizer"]),
+             ("plain", "QDense", [qf, qf],
+              ["kernel_quantizer", "bias_quantizer"]),
+             ("act", "QActivation", None, []),
+             ("dense", "QDense", [qa["dense"], qf],
+              ["kernel_quantizer", "bias_quantizer"])]
+    if extra_auto_other:
+      specs.append(("odd", "QConv1D", [qa["odd"], qf],
+                    ["kernel_quantizer", "bias_quantizer"]))
+    inp = Mock("input layer", {"name": "in0"})
+    q_layers = [inp] + [lay(*sp) for sp in specs]
+    o_layers = [inp] + [lay(*sp) for sp in specs]
+    orig = Mock("original model", {
+        "layers": o_layers, "input_shape": (None, 8, 8, 3),
+        "get_weights": lambda pe, a, k: "ORIGINAL-WEIGHTS",
+        "set_weights": lambda pe, a, k: ev.append(("orig.set_weights",
+                                                   a[0]))})
+    clone = Mock("exported clone", {
+        "layers": q_layers,
+        "get_weights": lambda pe, a, k: "EXPORTED-WEIGHTS",
+        "set_weights": lambda pe, a, k: ev.append(("clone.set_weights",
+                                                   a[0]))})
+    newm = {}
+
+    def export(pe, a, k):
+      ev.append(("export", a[0]))
+      if a[0] is clone:
+        return {"conv": {"weights": [1, 2], "scales": [3]}}
+      return {"conv": {"weights": [1, 2], "scales": [4 if hw_differs
+                                                     else 3]}}
+
+    def ctor(cls):
+      def build(pe, a, k):
+        qs = []
+        for kk, v in k.items():
+          if kk.endswith("_quantizer") and isinstance(v, dict) and \
+              "post_training_scale" in v.get("config", {}):
+            qs.append(Mock("frozen q", {
+                "alpha": "auto_po2", "post_training_scale":
+                v["config"]["post_training_scale"]}))
+        return new_layer(cls, k.get("name"), dict(k), qs)
+      return build
+
+    def qbits(pe, a, k):
+      return Mock("frozen quantized_bits", {
+          "get_config": lambda pe2, a2, k2: dict(k), "alpha": k.get("alpha"),
+          "post_training_scale": k.get("post_training_scale")})
+
+    def model_ctor(pe, a, k):
+      m = Mock("new model", {
+          "layers": list(made), "__io__": (a[0] if a else k.get("inputs"),
+                                           a[1] if len(a) > 1
+                                           else k.get("outputs")),
+          "set_weights": lambda pe2, a2, k2: ev.append(("new.set_weights",
+                                                        a2[0]))})
+      newm["m"] = m
+      return m
+    ov = {"model_save_quantized_weights": export, "quantized_bits": qbits}
+    for cls in KEY:
+      ov[cls] = ctor(cls)
+    pe = PE(repo, module_overrides={um.name: ov})
+    pe.opaque_ext = True
+    pe.ext_overrides = {
+        "tf.keras.models.clone_model": lambda pe, a, k: (
+            ev.append(("clone_model", a[0])), clone)[1],
+        "tf.keras.Input": lambda pe, a, k: "INPUT",
+        "tf.keras.Model": model_ctor}
+    res = pe.call(pe.lookup_global("clone_model_and_freeze_auto_po2_scale",
+                                   um), [orig], {"quantize_model_weights":
+                                                 flag})
+    return res, ev, made, clone, orig, newm.get("m"), specs
+
+  for flag in (False, True):
+    cfg = "quantize_model_weights=%s" % flag
+    try:
+      res, ev, made, clone, orig, newm, specs = scenario(flag)
+    except PyRaise as e:
+      rep.fail("R10", unit, "utility-raises", "%s raises %s" % (cfg, e),
+               loc=loc, instance=cfg)
+      continue
+    kinds = [e[0] for e in ev]
+    exports = [e[1] for e in ev if e[0] == "export"]
+    rep.check(("clone.set_weights", "ORIGINAL-WEIGHTS") in ev and
+              kinds.index("clone.set_weights") < kinds.index("export") and
+              exports[0] is clone and "orig.set_weights" not in kinds and
+              all(x is not orig for x in exports), "R10", unit,
+              "original-model-exported",
+              "%s: events %r; the export must run on a clone that received "
+              "the original weights and never on the original model" %
+              (cfg, [(e[0], str(e[1])[:30]) for e in ev]), loc=loc,
+              instance=cfg)
+    bad = []
+    if [m.attrs["name"] for m in made] != [sp[0] for sp in specs]:
+      bad.append("layers built: %r" % [m.attrs["name"] for m in made])
+    for m, sp in zip(made, specs):
+      name, cls, qs, keys = sp
+      kw = m.attrs["__kw__"]
+      if cls in KEY:
+        if m.attrs["__kind__"] != cls:
+          bad.append("%s built as %s" % (name, m.attrs["__kind__"]))
+          continue
+        auto = [q for q in qs if q is not None and
+                q.attrs["alpha"] == "auto_po2"]
+        for kk in keys:
+          c = kw.get(kk, {}).get("config") if isinstance(kw.get(kk),
+                                                         dict) else None
+          if auto and kk == KEY[cls]:
+            if not (isinstance(c, dict) and c.get("tag") == name and
+                    c.get("post_training_scale") == "SCALE-" + name and
+                    c.get("alpha") == "auto_po2"):
+              bad.append("%s.%s rebuilt from %r" % (name, kk, c))
+          elif c != {"old": name}:
+            bad.append("%s.%s changed to %r" % (name, kk, c))
+      else:
+        if m.attrs["__kind__"] != "other" or kw.get("from_config", {}).get(
+            "name") != name:
+          bad.append("%s rebuilt as %s from %r" % (name, m.attrs["__kind__"],
+                                                   kw))
+    applies = [e for e in ev if e[0] == "apply"]
+    chain = ["INPUT"] + ["x-after-" + sp[0] for sp in specs]
+    if [(a[1], a[2]) for a in applies] != [(sp[0], chain[i])
+                                           for i, sp in enumerate(specs)]:
+      bad.append("layers applied as %r" % [(a[1], a[2]) for a in applies])
+    if newm is None or newm.attrs["__io__"] != ("INPUT", chain[-1]):
+      bad.append("new model built from %r" % (
+          newm.attrs["__io__"] if newm is not None else None,))
+    rep.check(not bad, "R10", unit, "new-model-misbuilt",
+              "%s: %s" % (cfg, "; ".join(bad)), loc=loc, instance=cfg)
+    rep.check(("new.set_weights", "ORIGINAL-WEIGHTS") in ev, "R10", unit,
+              "new-model-weights",
+              "%s: the new model must receive the original (float) weights; "
+              "events %r" % (cfg, [e for e in ev if e[0].endswith(
+                  "set_weights")]), loc=loc, instance=cfg)
+    ok_res = isinstance(res, (tuple, list)) and len(res) == 2 and \
+        res[0] is newm
+    if flag:
+      rep.check(ok_res and len(exports) == 2 and exports[1] is newm and
+                isinstance(res[1], dict), "R10", unit,
+                "hw-weights-of-new-model",
+                "%s: exports ran on %r, result %r" % (
+                    cfg, [str(x) for x in exports], res), loc=loc,
+                instance=cfg)
+    else:
+      rep.check(ok_res and res[1] is None and len(exports) == 1, "R10",
+                unit, "hw-weights-of-new-model",
+                "%s: exports ran on %r, result %r" % (
+                    cfg, [str(x) for x in exports], res), loc=loc,
+                instance=cfg)
+  # refusals
+  for label, kw in (("a layer class without a creator keeps an adaptive "
+                     "auto_po2 quantizer", dict(extra_auto_other=True)),
+                    ("the hardware weights of the new model differ",
+                     dict(hw_differs=True))):
+    try:
+      scenario(True, **kw)
+      rep.fail("R10", unit, "refusal-missing", "accepted although %s" %
+               label, loc=loc, instance=label)
+    except PyRaise:
+      rep.ok("R10")
+
+
 def run(rep, repo, tier):
   rep.trusted.append("Keras weight order of the parent layer classes "
                      "(table in the rule); set_weights stores what it is "
@@ -793,6 +1025,8 @@ def run(rep, repo, tier):
   rule_frozen_scale(rep, repo)
   rule_fusing_pairs(rep, repo)
   rule_freeze_consistency(rep, repo, tier)
+  rule_freeze_main(rep, repo)
+  rep.require_instances("R10", 10)
   rep.require_instances("R9", 25)
   rep.require_instances("R8", 2)
   rep.require_instances("R7", 30)
